@@ -110,6 +110,11 @@ func genResp(rng *rand.Rand, tok string, status int, big bool) *respScript {
 		}
 		hopShape |= 1 << i
 		s.Hop = append(s.Hop, rawhttp.Field{Name: h, Value: v})
+		if h == "Connection" && rng.Intn(2) == 0 {
+			// the field that the backend nominates as hop-by-hop is really sent
+			hopShape |= 1 << 6
+			s.Hop = append(s.Hop, rawhttp.Field{Name: "x-nominated-" + strings.ToLower(tok), Value: "nominated-" + tok})
+		}
 	}
 	// framing and body
 	s.Framing = []string{"cl", "chunked", "chunked", "close"}[rng.Intn(4)]
@@ -343,10 +348,20 @@ func compareResponse(s *respScript, got *rawhttp.Message) (string, []string) {
 		}
 	}
 	// hop-by-hop tokens absent
+	// (known finding: a response framed by connection close carries "Connection: <name>, close"; net/http's
+	// response parser deletes the whole Connection field when it holds "close", before the agent's reverse proxy
+	// could act on the nomination, so the nominated field is forwarded; reported under its own signature and
+	// only when nothing else is wrong with the response)
+	var besideClose []string
 	for _, h := range s.Hop {
 		for _, f := range append(append([]rawhttp.Field{}, got.Fields...), got.Trailers...) {
 			if strings.Contains(f.Value, h.Value) || strings.EqualFold(f.Name, h.Value) {
-				add("hop-by-hop-forwarded", fmt.Sprintf("hop-by-hop %s: %s reached the client as %s: %s", h.Name, h.Value, f.Name, f.Value))
+				msg := fmt.Sprintf("hop-by-hop %s: %s reached the client as %s: %s", h.Name, h.Value, f.Name, f.Value)
+				if s.Framing == "close" && (h.Name == "Connection" || strings.HasPrefix(h.Name, "x-nominated-")) && strings.HasPrefix(strings.ToLower(f.Name), "x-nominated-") {
+					besideClose = append(besideClose, msg)
+					continue
+				}
+				add("hop-by-hop-forwarded", msg)
 			}
 		}
 	}
@@ -354,7 +369,10 @@ func compareResponse(s *respScript, got *rawhttp.Message) (string, []string) {
 		if len(got.Body) != 0 {
 			add("body-on-bodyless", fmt.Sprintf("%d body bytes on a %s/%d response", len(got.Body), s.Method, s.Status))
 		}
-		return kind, bad
+		if kind == "" && len(besideClose) > 0 {
+			kind = "hop-by-hop-forwarded:nominated-beside-close"
+		}
+		return kind, append(bad, besideClose...)
 	}
 	if len(got.Body) != s.BodyLen || rawhttp.SHA(got.Body) != rawhttp.SHA(s.body) {
 		off := 0
@@ -409,7 +427,10 @@ func compareResponse(s *respScript, got *rawhttp.Message) (string, []string) {
 			add("trailer-added", fmt.Sprintf("client received trailer %q: %q the backend never sent", n, v))
 		}
 	}
-	return kind, bad
+	if kind == "" && len(besideClose) > 0 {
+		kind = "hop-by-hop-forwarded:nominated-beside-close"
+	}
+	return kind, append(bad, besideClose...)
 }
 
 // C03 — the client receives the backend's response unaltered.
